@@ -269,7 +269,7 @@ def _classes(ty, out=None):
     return out
 
 
-def soften_kw_only(rng, ty, keep=0.06):
+def soften_kw_only(rng, ty, keep=0.015):
     """v1 passes required fields positionally: a required kw_only field cannot be loaded at all (unchanged-code finding
     `v1-kw-only-required`); keep only a few such classes so that the stream exercises the property itself"""
     kept = False
@@ -292,7 +292,7 @@ def run_v1(ctx: C.Ctx):
                 'with default and without (assigned in __post_init__)), the same subsets of deleted key positions: outcome vs the reference '
                 '(success with defaults / exact MissingFields naming the class and only constructor fields), default_factory freshness, '
                 'str(e), and vs the Lean model of the v1 engine (op loadv1). Non-trivial = distinct (class model, deleted subset), ≥ 1 deletion.')
-    ncls = ctx.quick(70, 700)
+    ncls = ctx.quick(70, 500)
     reqs, pend = [], []
     idx = v1streams.OFFSET
     for ci in range(ncls):
@@ -318,6 +318,8 @@ def run_v1(ctx: C.Ctx):
                 ctx.count('v1:exhaustive_classes')
             else:
                 subsets = [()] + [tuple(p for p in pos if rng.random() < rng.choice([0.15, 0.4])) for _ in range(ctx.quick(24, 200))]
+            if kw_req:
+                subsets = subsets[:3]      # a known finding: a few records per class are enough
             for S in subsets:
                 i = idx
                 idx += 1
